@@ -27,7 +27,7 @@ SPEC = dict(
          'in which at least one trajectory was fully judged (8 decades x (16+64+256) patterns = 2688 possible) - NOT the number of '
          'data sets; a_poly_* vectors do not contribute to it.',
     exhaustive={'quick': None, 'thorough': None},
-    require=['giant-coefficient-vector', 'trajpoly/evaluator-called-again-after-object-changed', 'poly/literal-length-call-site', 
+    require=['data-almost-consistent-with-a-lower-order-motion', 'giant-coefficient-vector', 'trajpoly/evaluator-called-again-after-object-changed', 'poly/literal-length-call-site', 
         'a_trajpoly3::gen(3 args)', 'a_trajpoly5::gen(3 args)', 'a_trajpoly7::gen(3 args)', 'a_trajpoly7::gen(9 args)', 'a_trajpoly3::pos', 'a_trajpoly5::vel', 'a_trajpoly7::jer', 'a_trajpoly7::c3', 'a_trajpoly5::c2', 'a_trajpoly3::c0',
         # time 0
         't0/pos==p0-bitwise', 't0/vel==v0-bitwise', 't0/acc==a0-bitwise', 't0/jer==j0-4ulp',
